@@ -227,6 +227,35 @@ def do_event(w: WorldC07, e):
     raise ValueError(e)
 
 
+_ALONE = {}
+
+
+def alone_in_fresh_process(e, w):
+    import json as _json
+    import subprocess
+    import sys as _sys
+    from ..runner import VERIF
+    from ..bridge import REPO
+    if e[0] == "variant":
+        q = {"kind": "variant", "call": e[1]}
+    elif e[0] in ("apply", "is_applicable"):
+        q = {"kind": e[0], "call": e[1], "state": w.state_vals[e[2]].to_json(), "flags": e[3] if e[0] == "apply" else 0}
+    elif e[0] in ("reapply", "requery"):
+        q = {"kind": "apply" if e[0] == "reapply" else "is_applicable", "call": w.op_calls[e[1]],
+             "state": w.state_vals[e[2]].to_json(), "flags": 0}
+    else:
+        return None
+    key = _json.dumps(q, sort_keys=True)
+    if key not in _ALONE:
+        p = subprocess.run([_sys.executable, "-m", "pv.c07_alone"], input=key, capture_output=True, text=True, cwd=VERIF,
+                           env=dict(os.environ, PYTHONPATH=f"{REPO}:{VERIF}", PYTHONHASHSEED="0"), timeout=120)
+        try:
+            _ALONE[key] = _json.loads(p.stdout.strip().splitlines()[-1])
+        except Exception:
+            _ALONE[key] = None
+    return _ALONE[key]
+
+
 def _agrees(obs, exp):
     """observation (show() form) vs reference answer; exceptions compare by being exceptions of the refusal kind"""
     if isinstance(exp, list):
@@ -277,9 +306,13 @@ def build(r, hist, check=True):
             exp = getattr(w, "expected", None)
             w.expected = None
             if exp is not None and not _agrees(obs, exp):
-                r.fail("result-vs-alone", f"history {hist}: event {e} returned {str(obs)[:400]}; made alone (reference) the call "
-                       f"gives {str(exp)[:400]}", exp, obs, tags=[e[0]])
-                return None
+                # arbitration in a FRESH interpreter: is it the history (impurity, C07) or the evaluator (C02/C03)?
+                alone = alone_in_fresh_process(e, w)
+                if alone is not None and not _agrees(obs, alone):
+                    r.fail("result-vs-alone", f"history {hist}: event {e} returned {str(obs)[:400]}; the same call made alone in "
+                           f"a fresh process returns {str(alone)[:400]} (reference: {str(exp)[:200]})", alone, obs, tags=[e[0]])
+                    return None
+                r.outcome("evaluator-disagreement (C02/C03's business)")
             if key in MEMO and MEMO[key] != obs:
                 r.fail("result-differs", f"history {hist}: event {e} returned {str(obs)[:500]} but the same event on equal "
                        f"inputs returned {str(MEMO[key])[:500]} before", MEMO[key], obs, tags=[e[0]])
